@@ -748,7 +748,21 @@ func (p c08) corrupt(ctx *core.RunCtx, g *c08Gen, e *c08Entry, v ser, data []byt
 	}
 	vals := []uint64{0, 1, 2, 0xff, 1 << 31, 1 << 32, 1<<62 + 12345, ^uint64(0), 0x7fffffffffffffff, 1 << 20, 1 << 40}
 	val := vals[ch.Draw("corrupt-val", len(vals))]
-	if ch.Bool("corrupt-relative") {
+	// textual fields (the metadata of plaintexts, ciphertexts and shares is JSON text inside the binary
+	// encoding): one character of a quoted number replaced by another printable one
+	var text []int
+	for i := 1; i+1 < lim; i++ {
+		c := data[i]
+		if (c >= '0' && c <= '9' || c == '.' || c == 'e' || c == '+' || c == 'x') && isTextByte(data[i-1]) && isTextByte(data[i+1]) {
+			text = append(text, i)
+		}
+	}
+	textual := len(text) > 0 && ch.Chance("corrupt-text", 1, 3)
+	if textual {
+		pos, width = text[ch.Draw("corrupt-text-pos", len(text))], 1
+		val = uint64([]byte{'x', 'e', '-', '9', '.', ' ', 'Z', '"', '}'}[ch.Draw("corrupt-text-val", 9)])
+	}
+	if !textual && ch.Bool("corrupt-relative") {
 		// old value +-1 / x2
 		old := uint64(0)
 		for j := width - 1; j >= 0; j-- {
@@ -796,7 +810,9 @@ func (p c08) corrupt(ctx *core.RunCtx, g *c08Gen, e *c08Entry, v ser, data []byt
 			ctx.Fail("corruption", cls+"|accepted-inconsistent", "corrupted encoding accepted with nil error, and the decoded object cannot be re-encoded: panic in %s: %s", r2.site, r2.msg)
 			return
 		}
-		if r2.err == nil && kind != rdUnmarshal && !e.Keyed && int64(len(re)) != res.n {
+		// (a changed character of a textual field can give another valid text whose canonical form has another
+		// length: the byte accounting below is a statement about binary length and flag fields only)
+		if r2.err == nil && kind != rdUnmarshal && !e.Keyed && !textual && int64(len(re)) != res.n {
 			ctx.Fail("corruption", cls+"|accepted-truncated", "corrupted encoding accepted with nil error: claims n=%d consumed but the decoded object encodes to %d bytes", res.n, len(re))
 			return
 		}
@@ -805,6 +821,8 @@ func (p c08) corrupt(ctx *core.RunCtx, g *c08Gen, e *c08Entry, v ser, data []byt
 	}
 	_ = errors.Is
 }
+
+func isTextByte(c byte) bool { return c >= 0x20 && c < 0x7f }
 
 func underlying(v ser) any {
 	if u, ok := v.(interface{ unwrap() any }); ok {
@@ -923,6 +941,11 @@ func metadataBystander(x any) (*rlwe.MetaData, uint64) {
 	var md *rlwe.MetaData
 	if m, ok := x.(*rlwe.MetaData); ok {
 		md = m
+	} else if sc, ok := x.(*rlwe.Scale); ok {
+		// a scale received by assignment from the receiver (the same sharing of big-number storage)
+		by := rlwe.MetaData{}
+		by.Scale = *sc
+		return &by, bystanderHash(&by)
 	} else {
 		v := reflect.ValueOf(x)
 		if v.Kind() == reflect.Ptr && !v.IsNil() && v.Elem().Kind() == reflect.Struct {
